@@ -1098,7 +1098,12 @@ impl Waiting {
                     ),
                     _ => None,
                 };
-                context.set_surroundings(*current);
+                let mut current = *current;
+                if let (true, Some(started_in)) = (succeeded, &started_in) {
+                    // (... and, for what is evaluated from now on, what it assigned)
+                    context.carry_assignments(started_in, &mut current);
+                }
+                context.set_surroundings(current);
                 if let Some(config) = changed {
                     context.update_config(config);
                 }
